@@ -563,6 +563,12 @@ def competition_summary(comp: "Competition") -> dict:
         return f
 
     out = {"policy": comp.policy, "graph": show(comp.graph) if comp.graph else None}
+    # argument validation (`if <bad input>: raise`) dominates everything after it; it is not part of what the loop decides
+    raises = [e for e in w.events if e.kind == "raise"]
+    _facts = facts
+
+    def facts(guards):  # noqa: F811  (shadow: validation complements dropped)
+        return _facts(tuple((g, pol) for g, pol in guards if not any((g, not pol) in r.guards for r in raises)))
     # seeding
     before = [e for e in w.events if e.seq < comp.loop.first_seq]
     ins = [e for e in before if e.kind == "call" and e.name == "insert" and e.target == ("attr", comp.heap, "insert")]
